@@ -25,7 +25,7 @@ from ..recipes import build as B
 from ..recipes import ref as R
 
 LEVEL = "exploration"
-BUDGET_S = {"quick": 85, "thorough": 1500}
+BUDGET_S = {"quick": 420, "thorough": 1500}
 N_HIST = {"quick": 10, "thorough": 320}
 LEN = {"quick": (4, 20), "thorough": (10, 200)}
 
